@@ -5,6 +5,7 @@ CONSTANTS
 CONSTRAINT Furthest
 INVARIANT OneOwner
 INVARIANT OwnerIsTheOne
+INVARIANT RefusedOnceCreated
 PROPERTY OwnerNeverReset
 POSTCONDITION Post
 CHECK_DEADLOCK FALSE
